@@ -513,7 +513,7 @@ def finalize(run, prop):
         "unknown / hidden / foreign columns, duplicate names, grouped / same-origin / other-backend / other-database joins and unions, slice_head on grouped, "
         "full join with inequality, markers outside arrange, bad casts, const-parameter violations, non-expression arguments) x syntactic "
         "positions (top level, arithmetic, case branch / condition, partition_by= / arrange= / filter=, via C. and via table references) x "
-        "hosting verbs x accepted prefix histories x {Polars, SQLite, PostgreSQL, SQL Server (the last two compile-only: usability = unchanged build_query text)}; plus generated accepted pipelines for the converse clause. "
+        "hosting verbs x accepted prefix histories x {Polars, SQLite, PostgreSQL, SQL Server (the last two compile-only: usability = unchanged build_query text)}; plus generated accepted pipelines for the converse clause (incl. their eval_aligned forms: some columns moved to a second table / Series and passed through eval_aligned). "
         "distinct = distinct (rule, position, host, prefix)",
         pipeline.ASSUME_COMMON + ["the documented class per rule is taken from the property statement, C09's statement and the deliberate raise sites"],
     )
@@ -524,5 +524,16 @@ def thorough_timeout(prop):
 
 
 def replay(prop, path):
+    import json
+
+    d = json.load(open(path))
+    if isinstance(d.get("program"), dict) and d["program"].get("steps") is not None:
+        # a generated pipeline of the converse clause: re-run it (and its eval_aligned form)
+        spec = dict(pipeline.SPECS["C01"])
+        spec["owns"] = ("exc:pol", "accept:", "excls:", "san:I14")
+        pipeline.SPECS["C14"] = spec
+        from . import pipeline_entry
+
+        return pipeline_entry.replay(prop, path)
     print(open(path).read()[:3000])
     return 1
